@@ -126,7 +126,14 @@ class Gen:
         if self.budget <= 0 or not self.spend(0.3): x = x * 0.45
         if x < 0.55: return self.plain() if not indq else self.r.choice(['a', 'b c', 'x  y', '#', ';', '|', '&', '(', ')', '<', '>', "'"])
         if x < 0.60: return '$' + self.name()
-        if x < 0.63: return '${' + self.name() + self.r.choice(['', ':-x', '#y', '%%z', ':=w', '/a/b', ':1:2']) + '}'
+        if x < 0.63:
+            if self.r.random() < 0.3 and depth <= self.maxdepth and self.spend(1):
+                # an operand made of word pieces: quotes, $"..", nested expansions inside ${...}
+                op = self.r.choice([':-', '-', ':=', ':+', '+', '#', '%', '/'])
+                operand = ''.join(self.r.choice(['$"x"', "$'y'", '"z w"', "'v'", '\\}', 'u']) if self.r.random() < 0.4 else self.word_piece(depth + 1, indq)
+                                  for _ in range(self.r.randint(1, 2)))
+                return '${' + self.name() + op + operand + '}'
+            return '${' + self.name() + self.r.choice(['', ':-x', '#y', '%%z', ':=w', '/a/b', ':1:2']) + '}'
         if x < 0.65: return '$' + self.r.choice('0123456789$#?-!*@')
         if x < 0.72 and depth < self.maxdepth: return '$(' + self.subst_body(depth + 1) + ')'
         if x < 0.76 and depth < self.maxdepth: return '`' + self.simple(depth + 1, bare=True) + '`'
@@ -172,6 +179,7 @@ class Gen:
         if allow_heredoc and self.heredocs:
             delim = self.r.choice(['E', 'EOF', 'E1', 'x'])
             spell = self.r.choice([delim, delim, delim, "'" + delim + "'", '"' + delim + '"', '\\' + delim])
+            if self.r.random() < 0.04: delim = ''; spell = self.r.choice(['""', "''"])      # the body ends at the first empty line
             dash = self.r.random() < 0.3
             body = ''.join(self.r.choice(['x\n', ' y z\n', '\n', delim + 'x\n', ' ' + delim + '\n', '$(a)\n', '\tq\n', 'a\\\nb\n', '\\\nfoo\n'])
                            for _ in range(self.r.randint(0, 3)))
